@@ -237,12 +237,34 @@ def sync_family(ctx, progs, want=("complete", "sound", "fails", "trace"), tcap=N
     return lower, upper, res
 
 
+
+DPOR_SPACES_QUICK = [("dporA", 3, ["ld", "st", "csld", "csst"], ["x", "y"], ["m"], 2, 0),
+                     ("dporN4", 4, ["ld", "st", "csld", "csst"], ["x", "y"], ["m"], 1, 0),
+                     ("dporMain", 3, ["ld", "st", "csst"], ["x", "y"], ["m"], 1, 1),
+                     ("dpor2m", 3, ["csld", "csst", "st"], ["x"], ["m", "n"], 2, 0)]
+DPOR_SPACES_THOROUGH = DPOR_SPACES_QUICK + [("dporK3", 3, ["ld", "st"], ["x", "y"], ["m"], 3, 0),
+                                            ("dporN4K2", 4, ["ld", "st"], ["x", "y"], ["m"], 2, 0),
+                                            ("dporCs2", 3, ["cs2", "ld", "st"], ["x"], ["m"], 2, 1)]
+
+
+def dpor_space(ctx, bounds, want, quick_sample=120, thorough_sample=0):
+    """Dpor.tla over whole program spaces: the design's invariants (TLC), the property on the real loom for the same
+    programs, and the conformance of the spec's predicted schedule sets (dporcheck.py)"""
+    import dporcheck, random
+    rng = random.Random(ctx.seed * 65537 + 7)
+    ctx.assumptions.append("Dpor.tla program spaces: straight-line threads over SeqCst loads/stores and mutex sections; reference = full "
+                           "interleaving semantics computed by TLC (RefOutcomes); loom may return more (SeqCst accesses are acquire/release)")
+    spaces = DPOR_SPACES_QUICK if ctx.tier == "quick" else DPOR_SPACES_THOROUGH
+    return dporcheck.run(ctx, spaces, bounds, quick_sample if ctx.tier == "quick" else thorough_sample, rng, want=want)
+
+
 def C01(ctx):
     ctx.assumptions += ["Spec_interleaved(P) (plain interleaving, no reduction) is the lower bound for programs with "
                         "SeqCst atomics; Upper(P) treats SeqCst accesses as acquire/release"]
     progs = families.syncmix(ctx.tier, ctx.seed)
     sync_family(ctx, progs)
     exhaustive_part(ctx, families.exhaustive_sync(), ("complete", "sound", "fails", "trace"), label="exh_sync")
+    dpor_space(ctx, [None], ("C01",))
 
 
 def C04(ctx):
@@ -340,6 +362,7 @@ def C14(ctx):
     import enginecheck
     enginecheck.run_engine(ctx, ["ExploreMC_small.cfg", "ExploreMC_hash_b99.cfg"] +
                            (["ExploreMC_hash_b1.cfg", "ExploreMC_small_b1.cfg"] if ctx.tier == "thorough" else []))
+    dpor_space(ctx, [None, 1], (), quick_sample=40)          # NoRepeat of the design + predicted = executed schedule sets
     ctx.cov["programs"] += len(progs)
     ctx.cov["evaluations"] += sum(len(r["hook_events"]) for r in res)
     ctx.cov["distinct_nontrivial"] += nontriv
@@ -533,6 +556,7 @@ def C15(ctx):
     for m, info in rej:
         ctx.violation("path-rejected", progs[m["prog"]], {"bound": m["bound"], **info}, {})
     enginecheck.run_engine(ctx, ["ExploreMC_small_b1.cfg", "ExploreMC_hash_b0.cfg", "ExploreMC_hash_b1.cfg", "ExploreMC_hash_b2.cfg"])
+    dpor_space(ctx, [0, 1, 2, 3, 16, None], ("C15",), quick_sample=60)
     ctx.cov["programs"] += len(progs)
     ctx.cov["evaluations"] += len(items)
     ctx.cov["distinct_nontrivial"] += nontriv
